@@ -6,6 +6,8 @@ package mon
 
 import (
 	"encoding/base64"
+	"os"
+	"path/filepath"
 	"sort"
 	"strconv"
 	"strings"
@@ -65,14 +67,22 @@ func init() {
 	for _, hb := range []string{"\xbf", "\xbf\xbf", "\x81", "\xe3\x80", "\xfe\xfe\xfe", "\xbf\x5c\xbf"} {
 		sqlUnits = append(sqlUnits, scaleFam{"", hb + "\\'", ""}, scaleFam{"", hb + "''", ""}, scaleFam{"", hb + "\\\"", ""})
 	}
+	// ODBC braces around empty or short names, never closed
+	for _, u := range []string{"{`` ", "{``", "{`a` ", "{a ", "{ a", "{1 ", "{'a' ", "{fn ", "{d 'a'} ", "{``.", "{`", "{}", "{{"} {
+		sqlUnits = append(sqlUnits, scaleFam{"", u, ""})
+	}
+	// unquoted attribute values that hold markup again
+	for _, u := range []string{"<a/b=", "<a b=", "<a b=<", "a=<", "<a\x00b=/"} {
+		htmlUnits = append(htmlUnits, scaleFam{"", u, ""})
+	}
 	htmlUnits = append(htmlUnits, scaleFam{"<![CDATA[", "]", "x"}, scaleFam{"<![CDATA[", "]]", "x"}, scaleFam{"<!--", "-", "x"}, scaleFam{"<%", "%", "x"}, scaleFam{"<a href=", "&#", "x"}, scaleFam{"<a href='", "&#x", "g'"})
 	sqlScale = crossPrefix([]string{"", "'", "\"", "1 '"}, sqlUnits)
 	htmlScale = htmlUnits
 	sqlDomain.scale, sqlDomain.scaleBase = sqlScale, sqlUnits
 	htmlDomain.scale, htmlDomain.scaleBase = htmlScale, htmlUnits
 	sqlDomain.aliasCases = sqlAliasCases
-	htmlDomain.extraCases = map[string]func() []string{"attrvals": htmlAttrValCases, "nsattrs": htmlNsAttrCases}
-	sqlDomain.extraCases = map[string]func() []string{"qualified": sqlQualifiedCases, "gluelit": sqlGlueLitCases, "encatk": sqlEncodedAttackCases}
+	htmlDomain.extraCases = map[string]func() []string{"attrvals": htmlAttrValCases, "nsattrs": htmlNsAttrCases, "elements": htmlElementCases}
+	sqlDomain.extraCases = map[string]func() []string{"qualified": sqlQualifiedCases, "gluelit": sqlGlueLitCases, "encatk": sqlEncodedAttackCases, "dialect": sqlDialectCases, "prose": sqlProseCases}
 	htmlDomain.aliasCases = htmlAliasCases
 	sqlDomain.seamPairs = [][2]string{{"sp_password", " --"}, {"1", " --sp_password"}, {"", "' OR 1=1-- "}, {"1 ", "\" or 1=1 #"}, {"1 /*", "*/ union select 1"}, {"1", " union select 1,2"}, {"$$", "$$ or 1=1"}, {"x'", "' or 1=1"}, {"1 --", "\n or 1=1"}, {"1 or 1=1 -- ' or 1=1 -- \" union select 1 -- ", ""}, {"a' or 1=1 -- \" union select 1,2 -- ", " x"}}
 	sqlDomain.seamPads = []string{"a", " "}
@@ -184,6 +194,7 @@ var htmlAttrNames = strings.Fields(`accept accept-charset accesskey action align
 // doubled or empty.
 var htmlValueShapes = []string{"", ";", ";;", ",", ",,", "0;;url=/a", "0;url=/a", "0; url=javascript:x", " ;x", ";x;", "x;", "a,b", "a, b 2x", ",a 1x,", "a  2x,,b", "url(x)", "url(", ":", "::", ":x", "x:", "&", "&#", "&#;", "&#x;", "&x", "&;",
 	"%", "%%", "%2", "\\", "{}", "{", "a=b=c", "=", "#", "#x", "?", "//", "/", "javascript:", "x javascript:x", "  ", "\t\n", "\x00", "\x00;\x00", "(", "()", "1 2 3 4", "0 0 0", "a;b;c;d;e;f;g;h", ";;;;;;;;;;;;;;;;", ",,,,,,,,,,,,,,,,",
+	"data:image/png,a;b", "data:image/png;base64,iVBORw0KGgo", "data:image/gif;,", "data:image/jpeg,", "data:image/webp;", "data:image/png;;base64,", "data:image/gif", "data:,", "data:;", "data:image/png,;", "data:image/svg+xml;utf8,a;b",
 	"text/html;charset=utf-7", "text/html;;", "refresh", "a:b:c", "a;b=c;d=", "x, y z, ", "-", "--", "+", "0", "-1", "1e9", "99999999999999999999", "*", "a|b", "||", "a&b", "a&&", "[]", "[", "]]>", "-->", "?>", "%>", "'", "\"", "`"}
 
 func htmlAttrValCases() []string {
@@ -210,6 +221,24 @@ func htmlAttrValCases() []string {
 					attrValList = append(attrValList, " "+name+"="+q+v+q+" ")
 				}
 			}
+		}
+		// one tag with k distinct listed attribute names (value-less events, then URL
+		// attributes with harmless values): bookkeeping per tag with a fixed capacity
+		var evs, urls []string
+		for _, e := range li.VerifBlackEvents() {
+			evs = append(evs, "on"+strings.ToLower(e.Name))
+		}
+		for _, a := range li.VerifBlacks() {
+			urls = append(urls, strings.ToLower(a.Name)+"=/x")
+		}
+		for k := 1; k <= len(evs); k++ {
+			if k > 40 && k%16 != 0 && k != len(evs) {
+				continue
+			}
+			attrValList = append(attrValList, "<div "+strings.Join(evs[:k], " ")+">", "<div "+strings.Join(evs[len(evs)-k:], "\n")+" >t")
+		}
+		for k := 1; k <= len(urls); k++ {
+			attrValList = append(attrValList, "<div "+strings.Join(urls[:k], " ")+">")
 		}
 	})
 	return attrValList
@@ -357,4 +386,91 @@ func hexString(v string) string {
 		b.WriteString(hexByte(v[i]))
 	}
 	return b.String()
+}
+
+var dialectOnce, elementsOnce sync.Once
+var dialectList, elementsList []string
+
+func corpusWords(file string) []string {
+	data, err := os.ReadFile(filepath.Join(verifDir(), "corpus", file))
+	if err != nil {
+		return nil
+	}
+	var out []string
+	for _, l := range strings.Split(string(data), "\n") {
+		l = strings.TrimSpace(l)
+		if l != "" && !strings.HasPrefix(l, "#") {
+			out = append(out, l)
+		}
+	}
+	return out
+}
+
+// sqlDialectCases: ~800 words of SQL dialects (reserved words, pseudo
+// columns, system objects, functions - most of them not in the table) in the
+// positions where a new lexer or folding rule would look at them: alone,
+// behind $ @ @@ : [ and a back quote, in front of ( and . and a quote, with
+// the construct cut off at the end of the input.
+func sqlDialectCases() []string {
+	dialectOnce.Do(func() {
+		frames := []string{"%s", "$%s", "@%s", "@@%s", "%s(", "%s(1", "1 %s(", "%s(a.b= 1", "%s '", "select %s", "select $%s", "%s.", "1 %s", "1 %s 1", "%s()", "%s (", "1 or %s 1=1", ";%s", "%s;", "[%s", "`%s", ":%s", "%s::", "1 %s 'a", "%s 1,2 --", "{%s", "%s x 'y'", "1 union select %s(1),2", "exec %s 'a'", "1 --%s"}
+		for i, w := range corpusWords("sqlwords.txt") {
+			for j, f := range frames {
+				sp := w
+				switch (i + j) % 3 {
+				case 1:
+					sp = strings.ToUpper(w)
+				case 2:
+					sp = strings.ToUpper(w[:1]) + w[1:]
+				}
+				dialectList = append(dialectList, strings.Replace(f, "%s", sp, 1))
+			}
+		}
+	})
+	return dialectList
+}
+
+// htmlElementCases: every element name of HTML, SVG and MathML as a start tag,
+// end tag and host of attributes, and in front of a vector (a tokenizer that
+// learns an element's content model changes what follows it).
+func htmlElementCases() []string {
+	elementsOnce.Do(func() {
+		frames := []string{"<%s>", "<%s ", "<%s x=y>", "</%s>", "<%s/>", "<%s><script>", "<p><%s><a href=javascript:x>", "<%s>t</%s ><svt>", "<%s to=javascript:x>", "<%s href=javascript:x>", "<%s onclick=x>", "<%s", "</%s x='>'><xss>", "<%s><%s><embed>",
+			"<%s>' onerror='x", "<%s title=\"<svt>\">", "<%s values=data:x>", "'><%s xmlns=x>"}
+		for i, w := range corpusWords("htmlelements.txt") {
+			for j, f := range frames {
+				sp := w
+				if (i+j)%3 == 1 {
+					sp = strings.ToUpper(w)
+				}
+				elementsList = append(elementsList, strings.ReplaceAll(f, "%s", sp))
+			}
+		}
+	})
+	return elementsList
+}
+
+var proseOnce sync.Once
+var proseList []string
+
+// sqlProseCases: English phrases in which a word of SQL stands next to
+// ordinary nouns and adjectives (student union, order by phone, drop table
+// tennis): exceptions written for "obvious prose" live here.
+func sqlProseCases() []string {
+	proseOnce.Do(func() {
+		before := []string{"credit", "student", "trade", "european", "labor", "soviet", "customs", "western", "rugby", "state", "the", "a", "my", "please", "first", "best", "new", "our", "big", "no"}
+		kws := []string{"union", "select", "order by", "group by", "table", "drop table", "update", "delete from", "insert into", "where", "having", "like", "between", "case", "null", "join", "limit", "set", "values", "into", "from", "all", "and", "or", "not", "in", "is", "as", "on", "exec", "declare", "if", "end", "begin", "go", "print", "while", "merge", "create", "alter"}
+		after := []string{"", " (north)", " -- best rates", " members", " 1", " station, platform 2", " 'quoted'", " #1", "; thanks", " / trade", " x=y", ", inc."}
+		for i, b := range before {
+			for j, k := range kws {
+				for l, a := range after {
+					if (i+j+l)%3 != 0 {
+						continue
+					}
+					proseList = append(proseList, b+" "+k+a, strings.ToUpper(b[:1])+b[1:]+" "+strings.ToUpper(k[:1])+k[1:]+a)
+				}
+			}
+		}
+	})
+	return proseList
 }
